@@ -158,6 +158,31 @@ def run_shard(spec, ctx):
                         continue
                     eval_case(ctx, Q, 'pow3', pow, 'QN', a, b, m)
                     eval_case(ctx, Q, 'pow3', pow, 'QQ', a, b, m)
+        # the reflected methods entered with a Quantity on both sides (a subclass that overrides them gets there through
+        # Python's dispatch; here they are called directly): q.__rsub__(p) is p - q
+        refl = {'add': '__radd__', 'sub': '__rsub__', 'mul': '__rmul__', 'truediv': '__rtruediv__', 'floordiv': '__rfloordiv__',
+                'mod': '__rmod__', 'divmod': '__rdivmod__', 'pow': '__rpow__', 'lshift': '__rlshift__', 'rshift': '__rrshift__',
+                'and': '__rand__', 'xor': '__rxor__', 'or': '__ror__'}
+        for name, fn in BIN:
+            meth = refl[name]
+            for a in SMALL:
+                for b in SMALL:
+                    if too_big(name, b, a):
+                        continue
+                    exp = outcome(fn, b, a)
+                    for label, qa, qb in (('same-unit', Q(a, 'kg'), Q(b, 'kg')), ('right-unitless', Q(a, 'kg'), Q(b, None))):
+                        try:
+                            m = getattr(qa, meth)
+                        except AttributeError:
+                            continue
+                        got = outcome(m, qb)
+                        if got == ('value', 'NotImplementedType', 'NotImplemented'):
+                            ctx.count('reflected method declined (NotImplemented)')
+                            continue
+                        ctx.case(PINT_TAG, name, 'reflected-' + label, repr(a), repr(b))
+                        ctx.count('reflected methods called with a Quantity on both sides')
+                        if got != exp:
+                            _viol(ctx, name, 'reflected-QQ', b, a, exp, got)
         ctx.sample({'op': 'divmod', 'mode': 'NQ', 'a': 7, 'b': -3, 'bare': outcome(divmod, 7, -3),
                     'quantity': outcome(divmod, 7, Q(-3, 'kg'))})
         ctx.sample({'op': 'lshift', 'mode': 'QN', 'a': 1, 'b': 0.5, 'bare': outcome(operator.lshift, 1, 0.5),
@@ -237,6 +262,12 @@ def replay(case, ctx):
         got = outcome(table[case['op']], Q(a, 'kg'), Q(b, 'm'))
         if got != ('raise', 'TypeError'):
             _viol(ctx, case['op'], 'QQdiff', a, b, ('raise', 'TypeError'), got)
+        return
+    if case['mode'] == 'reflected-QQ':
+        refl = '__r%s__' % {'and': 'and', 'or': 'or'}.get(case['op'], case['op'])
+        exp, got = outcome(table[case['op']], a, b), outcome(getattr(Q(b, 'kg'), refl), Q(a, 'kg'))
+        if exp != got:
+            _viol(ctx, case['op'], 'reflected-QQ', a, b, exp, got)
         return
     eval_case(ctx, Q, case['op'], table[case['op']], case['mode'], a, b, third)
 
